@@ -3,6 +3,7 @@ import HapModel.Drv.C03
 import HapModel.Drv.C04
 import HapModel.Drv.C05
 import HapModel.Drv.C06
+import HapModel.Drv.C07
 import HapModel.Drv.C11
 import HapModel.Drv.C12
 import HapModel.Drv.C13
@@ -32,6 +33,8 @@ def dispatch1 (op : String) (j : Json) : R Json :=
   | "transform" => hTransform j
   | "hapParse" => hHapParse j
   | "hapQuery" => hHapQuery j
+  | "gtStore" => hGtStore j
+  | "gtRestrict" => hGtRestrict j
   | _ => throw s!"unknown op {op}"
 
 /-- {"op":"batch","reqs":[…]} → {"resps":[…]} -/
